@@ -2,8 +2,8 @@
 From Coq Require Import NArith List.
 From DV Require Import Base.Outcome Base.Bytes Base.Names Base.PName C02.Gen C02.Model
   C02.ProofsBasic C02.ProofsClone C02.ProofsRun C02.ProofsName C02.ProofsComp C02.ProofsStatic C02.ProofsHash C02.ProofsTop
-  C02.ProofsLayout C02.ProofsRead C02.ProofsWrite C02.ProofsBuild C02.ProofsTotal C02.ProofsX C02.SchemaModel C02.ProofsSchema C02.ProofsGrow C02.ProofsReuse.
-From DV Require C05.Schema C05.ProofsB C05.Model.
+  C02.ProofsLayout C02.ProofsRead C02.ProofsWrite C02.ProofsBuild C02.ProofsTotal C02.ProofsX C02.SchemaModel C02.ProofsSchema C02.ProofsGrow C02.ProofsReuse C02.ProofsOpt C02.ProofsCount.
+From DV Require C05.Schema C05.ProofsB C05.Model C05.OptModel.
 Import ListNotations.
 Local Open Scope N_scope.
 
@@ -193,8 +193,8 @@ Proof. exact compose_opt_clone_spec. Qed.
 Print Assumptions C02_clone_from_keeps_writer_invariants.
 
 (* Typed record data, through the record-data schemas of C05: a value of any
-   C05 schema (without a cross-field check; all rows of C05's table of record
-   types are such) pushed as a record - its compressible names through the
+   C05 schema (with or without a cross-field check: the checks do not look at
+   name octets, post_check_fval_eq) pushed as a record - its compressible names through the
    compressor, its other names in full, every other field in its C05 wire
    form - on any target with any compressor, is read back by the record
    reader, and C05's own parse_rdata (with the message reader as name decoder)
@@ -203,7 +203,7 @@ Print Assumptions C02_clone_from_keeps_writer_invariants.
    answers None. *)
 Theorem C02_schema_record_reread : forall c owner ty cls ttl s v w w',
   WG c ok12 w -> 12 <= mlen (w_buf w) ->
-  C05.ProofsB.wf_schema_full s = true -> C05.Schema.s_post s = C05.Schema.PNone -> C05.Schema.wf_value s v = true ->
+  C05.ProofsB.wf_schema_full s = true -> C05.Schema.wf_value s v = true ->
   name_ok owner -> ty < 65536 -> cls < 65536 -> ttl < 4294967296 ->
   compose_record c (schema_record owner ty cls ttl s v) w = WOk w' ->
   WG c ok12 w' /\
@@ -212,7 +212,7 @@ Theorem C02_schema_record_reread : forall c owner ty cls ttl s v w w',
     record_eqb r' (schema_record owner ty cls ttl s v) = true /\
     (exists n', decode_name (w_buf w') (mlen (w_buf w)) (mlen (w_buf w')) = Ok (n', e1) /\ name_eqb n' owner = true) /\
     C05.Schema.parse_rdata C05.Schema.pname_dec s (w_buf w') (e1 + 10) (mlen (w_buf w')) = Ok v' /\ Forall2 fval_eq v' v.
-Proof. exact schema_record_reread. Qed.
+Proof. exact schema_record_reread_post. Qed.
 Print Assumptions C02_schema_record_reread.
 
 Theorem C02_schema_prefix_is_rdlen_none : forall c owner ty cls ttl s v,
@@ -281,3 +281,63 @@ Theorem C02_pushes_reread : forall c qs an ns ar s0 s a ws,
   exists a', rd_message (msg_of s) (mkAcc qs an ns ar) = Ok a' /\ acc_eqb a' (mkAcc qs an ns ar) = true.
 Proof. exact pushes_reread. Qed.
 Print Assumptions C02_pushes_reread.
+
+(* Schemas without compressible names (IPSECKEY, the option rows, SRV, ...):
+   the record data is in the message octet for octet, so every complete name
+   decoder - the strict no-compression decoder of IPSECKEY included - reads
+   the value back exactly, cross-field check included. *)
+Theorem C02_schema_record_reread_flat : forall c owner ty cls ttl s v w w',
+  WG c ok12 w -> 12 <= mlen (w_buf w) ->
+  C05.ProofsB.wf_schema_full s = true -> C05.Schema.wf_value s v = true -> C05.Schema.has_compressible s = false ->
+  name_ok owner -> ty < 65536 -> cls < 65536 -> ttl < 4294967296 ->
+  compose_record c (schema_record owner ty cls ttl s v) w = WOk w' ->
+  exists e1 pre,
+    (exists n', decode_name (w_buf w') (mlen (w_buf w)) (mlen (w_buf w')) = Ok (n', e1) /\ name_eqb n' owner = true) /\
+    w_buf w' = pre ++ C05.Schema.compose s v /\ len pre = e1 + 10 /\ mlen (w_buf w') = e1 + 10 + len (C05.Schema.compose s v) /\
+    forall dec, C05.ProofsB.dec_complete dec -> C05.Schema.parse_rdata dec s (w_buf w') (e1 + 10) (mlen (w_buf w')) = Ok v.
+Proof. exact schema_record_reread_flat. Qed.
+Print Assumptions C02_schema_record_reread_flat.
+
+(* IPSECKEY as the library parses it: the row is picked by the gateway type
+   octet found in the message, the gateway name must be uncompressed. *)
+Theorem C02_ipseckey_record_reread : forall c owner cls ttl g v w w',
+  WG c ok12 w -> 12 <= mlen (w_buf w) -> g <= 3 ->
+  C05.Schema.wf_value (C05.Model.ipseckey_schema g) v = true ->
+  name_ok owner -> cls < 65536 -> ttl < 4294967296 ->
+  compose_record c (schema_record owner 45 cls ttl (C05.Model.ipseckey_schema g) v) w = WOk w' ->
+  exists e1, (exists n', decode_name (w_buf w') (mlen (w_buf w)) (mlen (w_buf w')) = Ok (n', e1) /\ name_eqb n' owner = true) /\
+             C05.Model.ipseckey_parse (w_buf w') (e1 + 10) (mlen (w_buf w')) = Ok v.
+Proof. exact ipseckey_record_reread. Qed.
+Print Assumptions C02_ipseckey_record_reread.
+
+(* Typed EDNS options, as rows of C05's option table (edns-client-subnet with
+   its cross-field check included): an OPT record pushed with typed options
+   (code, compose_len, composed data - OptBuilder::push), by the setter closure
+   or by clone_from, is stored as the OPT record; C05's option iterator finds
+   exactly these options in its record data, and C05's row for each code parses
+   each option's data back to the value pushed. *)
+Theorem C02_typed_options_reread : forall c oh l w w',
+  WG c ok12 w -> 12 <= mlen (w_buf w) -> wf_oh oh -> Forall wf_typed l ->
+  opt_writer c oh (typed_opts l) w = WOk w' ->
+  WG c ok12 w' /\
+  RAt (w_buf w') (mlen (w_buf w)) (opt_record oh (typed_opts l)) (mlen (w_buf w')) /\
+  C05.OptModel.opt_iter (S (length l)) (w_buf w') (mlen (w_buf w) + 11) (mlen (w_buf w')) [] = Ok (map plain_of l) /\
+  Forall (fun o => C05.Model.c05_optdata (fst o) (opt_data o) = Ok (snd o)) l.
+Proof. exact typed_options_reread. Qed.
+Print Assumptions C02_typed_options_reread.
+
+Theorem C02_typed_option_fixpoint : forall o, wf_typed o -> c02_typed_option (raw_of_typed o) = (raw_of_typed o, true).
+Proof. exact typed_option_fixpoint. Qed.
+Print Assumptions C02_typed_option_fixpoint.
+
+(* The counter ceiling: n root questions through the step model give what the
+   driver's arithmetic path (c02_count) computes - the count saturates at
+   count_max, push count_max + 1 and all later ones fail with CountOverflow
+   and change nothing. *)
+Theorem C02_count_run_is_arith : forall n s0 s a ws,
+  init cfg_vec = Some s0 -> n <> O ->
+  run_acc cfg_vec s0 acc0 (repeat (OpQ rootq) n) = (s, a, ws) ->
+  c02_count (N.of_nat n) =
+  (b_qd s, mlen (w_buf (b_w s)), match last ws RNone with RErr e => e =? E_COUNT | _ => false end).
+Proof. exact count_run_is_arith. Qed.
+Print Assumptions C02_count_run_is_arith.
